@@ -32,6 +32,10 @@ def gen_case(rng, thorough):
         for _ in range(k):
             a = action(rng, fail_prob=0.15)
             if a["verif_tmpl"]["t"] == "throw": failing = True
+            if "who" in when and isinstance(when["who"], str) and when["who"] == "?w" and rng.random() < 0.2:
+                # an action that names a variable of its bindings (bound by `when`; the event may bind it to null)
+                t = rng.choice([{"t": "bindvar", "k": "n", "x": "w"}, {"t": "eqvar", "x": "w", "v": rng.choice(["homer", "bart"])}])
+                a = {"code": js_of_tmpl(t), "verif_tmpl": t}
             acts.append(a)
         if k == 1 and rng.random() < 0.5: r["action"] = acts[0]
         else: r["actions"] = acts
@@ -39,8 +43,17 @@ def gen_case(rng, thorough):
         if rng.random() < 0.15: r["id"] = rng.choice(["r0", "zz", "r%d" % ((i + 1) % 4)])     # an `id` inside the rule body is data: the rule is known by the id it is stored under
         ops.append({"op": "addRule", "loc": "a", "id": "r%d" % i, "rule": r})
         if rng.random() < 0.1: ops.append({"op": "enableRule", "loc": "a", "id": "r%d" % i, "enable": False})
+    if rng.random() < 0.2:
+        # a scheduled rule (no `when`) is evaluated through the event that names it, the way the cron service does it: every evaluation
+        # starts from fresh, empty bindings (plus event/location/ruleId)
+        sid = "s%d" % rng.randint(0, 1)
+        sr = {"schedule": rng.choice(["* * * * * * 2099", "0 0 0 1 1 * 2098"]), "actions": [action(rng, fail_prob=0.0) for _ in range(rng.randint(1, 2))]}
+        if rng.random() < 0.4: sr["condition"] = {"pattern": {"likes": "?l"}}
+        ops.append({"op": "addRule", "loc": "a", "id": sid, "rule": sr})
+        for _ in range(rng.randint(1, 2)):
+            ops.append({"op": "event", "loc": "a", "event": {"trigger!": sid}})
     for _ in range(rng.randint(1, 3)):
-        ev = {"who": rng.choice(["homer", "bart", "lisa"])}
+        ev = {"who": rng.choice(["homer", "bart", "lisa", None])}
         if rng.random() < 0.6: ev["tags"] = rng.sample(["x", "y", "z"], rng.randint(1, 3))
         if rng.random() < 0.2: ev["other"] = 1
         ops.append({"op": "event", "loc": "a", "event": ev})
@@ -104,4 +117,5 @@ def main():
     proof_verdict(ck, pr)
     ck.finish()
 
-main()
+if __name__ == "__main__":
+    main()
